@@ -34,7 +34,7 @@ def leaves(tier):
             out.append("RxV %s %s;" % (op, rhs_for(op, "a")))
             out.append("RxxV %s %s;" % (op, rhs_for(op, "b")))
     out += ["x /= ((a & 15) | 1);", "x %= ((a & 15) | 1);", "x = x / -3;", "y /= ((b & 15) | 1);"]
-    out += ["RdV = x;", "RddV = y;", "PdV = x;", "mem_store_u32((a & 0xfc), y);", "JUMP(x);", "int32_t t = x + 1; x = t * 2;", ";", "{ }", "{ x = x + 1; y = y + (uint32_t)x; }", "RxV += a;", "x = y = a;"]
+    out += ["RdV = x;", "RddV = y;", "PdV = x;", "mem_store_u32((a & 0xfc), y);", "JUMP(x);", "int32_t t = x + 1; x = t * 2;", ";", "{ }", "{ x = x + 1; y = y + (uint32_t)x; }", "RxV += a;", "x = y = a;", "x = RdV = y = b;", "RdV = RxV = x = a;", "x = RdV = i++;", "RdV = x = clz32(b);", "y = x = RxV = RdV = a;"]
     return out
 
 
